@@ -129,3 +129,28 @@ Theorem c23_cast_refuted : forall c : IRSem.cfg,
   ~ cast_row c I32 U8 CvNone PNone /\ (forall p, ~ cast_row c I32 U64 CvExtU p).
 Proof. intros c. split; [exact (cast_i32_u8_bare_wrong c) | exact (cast_i32_u64_wrong c)]. Qed.
 Print Assumptions c23_cast_refuted.
+
+(* all integer casts, without exception, on a tree where the check finds cast_bad_rows = []
+   (true once fixes/C23-subword-sign-cast.diff and C23-cast-i32-u64-sign-extend.diff are in;
+   c23_cast_refuted stays the statement about the code as found) *)
+Theorem c23_cast_exact : forall c : IRSem.cfg, ptr_bytes c = 4%Z ->
+  cast_bad_rows = [] ->
+  forall f t cv p, In (f, t, cv, p) casttable -> cast_row c f t cv p.
+Proof. intros c Hp. exact (cast_exact c). Qed.
+Print Assumptions c23_cast_exact.
+
+(* ---- loads and stores: for every (type -> opcode) row of the compiler (exported by compiling
+   one-instruction functions; static offset 0): the wasm load (WasmMemSpec.mem_load) returns the
+   representation of the value IRSem's load_val reads from the same bytes, and the wasm store
+   (mem_store) writes exactly the bytes IRSem's store_val writes *)
+From PV Require Import Spec.WasmMemSpec Model.Ir2WasmMem Proofs.C23_mem Proofs.C23_table3.
+Theorem c23_loadstore_table_sound : forall c : IRSem.cfg, ptr_bytes c = 4%Z ->
+  (forall r, In r loadtable -> load_row c r) /\ (forall r, In r storetable -> store_row c r).
+Proof. intros c Hp. exact (loadstore_table_sound c Hp). Qed.
+Print Assumptions c23_loadstore_table_sound.
+
+Example c23_loadstore_nonvacuous :
+  In (I8, W32, 1%nat, true) loadtable /\ In (U32, W64, 4%nat) storetable /\
+  mem_load [1; 255; 3]%Z 1 true 32 1 0 = Some 4294967295%Z /\
+  mem_store [1; 2; 3; 4; 5]%Z 2 1 0 (rep W32 (-2)) = Some [1; 254; 255; 4; 5]%Z.
+Proof. vm_compute. repeat split; auto 30. Qed.
